@@ -135,6 +135,10 @@ class Module:
                 for c in cfgs:   # cfg=a,b : the same harness is an obligation under each listed configuration
                     k2 = dict(kv)
                     k2["cfg"] = c
+                    # a conformance obligation discharged under a non-default build configuration of a crate that has several
+                    # backends is, by that, also an obligation of C03 (every configuration equals the same reference)
+                    if c not in ("default", "zeroize", "hazmat") and "zeroize" not in c and conf and conf in k2["props"] and "C03" not in k2["props"] and self.crate in ("aes", "kuznyechik", "serpent"):
+                        k2["props"] = k2["props"] + ["C03"]
                     k2["id"] = f"{self.crate}.{self.path.stem}.{kv['name']}" + ("" if len(cfgs) == 1 else f"@{c}")
                     self.obs.append(k2)
             i += 1
